@@ -2,34 +2,971 @@ package rules
 
 import (
 	"fmt"
+	"go/ast"
+	"go/token"
+	"go/types"
 	"os"
+	"sort"
+	"strings"
+
+	"golang.org/x/tools/go/ssa"
 
 	"verif/internal/core"
 )
 
-// registration deferred until the loaded-document invariants (C02.cover) are available
-func init() { _ = c20 }
+// registration deferred until triage is complete
+func init() { register("C20", c20) }
+
+// restrictScope keeps the functions of the given repo packages.
+func restrictScope(cs *crashScope, rels ...string) {
+	keep := map[*ssa.Function]bool{}
+	var funcs []*ssa.Function
+	for _, fn := range cs.funcs {
+		top := fn
+		for top.Parent() != nil {
+			top = top.Parent()
+		}
+		if top.Origin() != nil {
+			top = top.Origin()
+		}
+		rel := ""
+		if top.Package() != nil {
+			rel = core.RelPkg(top.Package().Pkg)
+		} else if o := top.Object(); o != nil && o.Pkg() != nil {
+			rel = core.RelPkg(o.Pkg())
+		}
+		for _, r := range rels {
+			if rel == r {
+				keep[fn] = true
+				funcs = append(funcs, fn)
+			}
+		}
+	}
+	cs.reach = keep
+	cs.funcs = funcs
+}
 
 func c20(r *core.Report) {
 	p := r.Prog
 	p.BuildSSA()
-	cs := newCrashScope(p, "C20", loadEntries(p))
-	if os.Getenv("KINLINT_EXPLORE") != "" {
-		exploreCrashConstructs(p, cs.reach)
+	all := loadEntries(p)
+	var loadE, postE []*ssa.Function
+	for _, e := range all {
+		n := e.Name()
+		if strings.HasPrefix(n, "Load") || n == "ResolveRefsIn" || n == "UnmarshalJSON" {
+			loadE = append(loadE, e)
+		} else {
+			postE = append(postE, e)
+		}
 	}
-	r.Extra["reachable_functions"] = len(cs.funcs)
-	r.Assumption("claim: none of the enumerated crash constructs is reachable unguarded from load / resolve / validate / marshal / internalise; panics or hangs inside encoding/json, the YAML reader, jsonpointer, marshmallow on hostile bytes, memory exhaustion and non-constant indices are not decided")
-	r.Assumption("nothing has been validated on these paths: every pointer field of the document model, every reference wrapper's Value and every entry of a document collection may be nil")
-	if len(cs.funcs) < 250 {
+	csLoad := newCrashScope(p, "C20", loadE)
+	restrictScope(csLoad, "openapi3", "cmd/validate")
+	// encoders reached only through encoding/json's dynamic dispatch on a decoded map are not part of loading
+	{
+		var fs []*ssa.Function
+		for _, fn := range csLoad.funcs {
+			if strings.HasPrefix(fn.Name(), "Marshal") || strings.HasSuffix(fn.Name(), "Validate") || fn.Name() == "validate" {
+				delete(csLoad.reach, fn)
+				continue
+			}
+			fs = append(fs, fn)
+		}
+		csLoad.funcs = fs
+	}
+	// Post-load phase. Schema.visitJSON (value validation) is entered from Validate only to check
+	// defaults and examples against a schema whose sub-schemas Schema.validate has already accepted
+	// (it returns on the first sub-schema error before it reaches them): that subtree runs under the
+	// validated-document regime decided by C10, not under this phase's "nothing validated" regime.
+	csPost := newCrashScope(p, "C20", postE)
+	csPost.reach = p.ReachableExcept(postE, func(f *ssa.Function) bool {
+		if f.Name() != "visitJSON" && f.Name() != "VisitJSON" {
+			return false
+		}
+		rv := f.Signature.Recv()
+		return rv != nil && core.NamedOf(rv.Type()) != nil && core.NamedOf(rv.Type()).Obj().Name() == "Schema"
+	})
+	csPost.funcs = nil
+	for fn := range csPost.reach {
+		csPost.funcs = append(csPost.funcs, fn)
+	}
+	sort.Slice(csPost.funcs, func(i, j int) bool {
+		if csPost.funcs[i].String() != csPost.funcs[j].String() {
+			return csPost.funcs[i].String() < csPost.funcs[j].String()
+		}
+		return csPost.funcs[i].Pos() < csPost.funcs[j].Pos()
+	})
+	restrictScope(csPost, "openapi3")
+	{
+		// the loader's own functions belong to the load phase
+		var fs []*ssa.Function
+		for _, fn := range csPost.funcs {
+			top := fn
+			for top.Parent() != nil {
+				top = top.Parent()
+			}
+			if rv := top.Signature.Recv(); rv != nil {
+				if n := core.NamedOf(rv.Type()); n != nil && n.Obj().Name() == "Loader" {
+					delete(csPost.reach, fn)
+					continue
+				}
+			}
+			fs = append(fs, fn)
+		}
+		csPost.funcs = fs
+	}
+	csAll := newCrashScope(p, "C20", all)
+	restrictScope(csAll, "openapi3", "cmd/validate")
+	if os.Getenv("KINLINT_EXPLORE") != "" {
+		exploreCrashConstructs(p, csAll.reach)
+	}
+	if os.Getenv("KINLINT_DEBUG") != "" {
+		for _, fn := range csLoad.funcs {
+			if fn.Name() == "VisitJSON" || fn.Name() == "GetByInAndName" || fn.Name() == "MatchURL" {
+				fmt.Println("LOADPATH", entryPathTo(p, csLoad, fn))
+			}
+		}
+	}
+	r.Extra["reachable_functions"] = len(csAll.funcs)
+	r.Extra["load_phase_functions"] = len(csLoad.funcs)
+	r.Extra["post_load_functions"] = len(csPost.funcs)
+	r.Assumption("claim: none of the enumerated crash constructs is reachable unguarded from load / resolve / validate / marshal / internalise within package openapi3; panics or hangs inside encoding/json, the YAML reader, jsonpointer, marshmallow on hostile bytes, memory exhaustion and non-constant indices are not decided")
+	r.Assumption("load phase: nothing is known about the unmarshalled data (every pointer field, wrapper Value and collection entry may be nil); post-load phase (Validate, Marshal*, InternalizeRefs on a document returned by the loader): reference wrappers are present and resolved (C02.cover and C20.wrapper), every other pointer field or entry may be nil")
+	if len(csAll.funcs) < 250 {
 		r.RunRule("C20.scope", "reachability floor", 1, func() {
-			r.Bad("scope", "-", fmt.Sprintf("only %d functions reachable from the load entries", len(cs.funcs)))
+			r.Bad("scope", "-", fmt.Sprintf("only %d functions reachable from the load entries", len(csAll.funcs)))
 		})
 		return
 	}
-	crashPanic(r, cs, map[string]panicExcuse{})
-	crashAssert(r, cs)
-	crashIndex(r, cs)
-	crashLib(r, cs)
-	crashRec(r, cs)
-	crashNilMode(r, cs, true, 50)
+	c20Wrapper(r)
+	c20Inv(r)
+	crashPanic(r, csAll, map[string]panicExcuse{
+		"openapi3.readableType": {
+			reason: "the default case is unreachable: every value that flows into readableType (directly, or through the `resolved` parameter of resolveComponent) has one of the static types listed in its type switch",
+			verify: func() string { return verifyReadableType(p) },
+		},
+		"openapi3.ReferencesComponentInRootDocument": {
+			reason: "jsonpointer.GetForToken(doc.Components, ref.CollectionName()) cannot fail: every CollectionName method returns a constant that is the JSON name of a field of Components",
+			verify: func() string { return verifyCollectionNames(p) },
+		},
+		"openapi3.DefaultRefNameResolver": {
+			reason: "the resolver's precondition (a reference string and a recorded location) holds at every call made by InternalizeRefs: each add*ToSpec returns before asking the resolver when the wrapper is nil, unresolved (Value == nil) or not an external reference (isExternalRef implies Ref != \"\"); a resolved reference has a recorded location (setRefPath accompanies every store of Value in the loader: C16.refpath / C02.sib)",
+			verify: func() string { return verifyResolverCalls(p) },
+		},
+	})
+	crashAssert(r, csAll, map[string]assertExcuse{
+		"openapi3.ReferencesComponentInRootDocument": {
+			reason: "the asserted values come from a map whose type passed the reflective test two lines above (string keys, elements assignable to ComponentRef), and every collection of Components has the key type string itself",
+			verify: func() string { return verifyReflectGuardedAsserts(p) },
+		},
+		"openapi3.drillIntoField": {
+			reason: "the asserted value is field 0 named Extensions of a model struct, and every struct of package openapi3 whose first field is named Extensions declares it as map[string]any",
+			verify: func() string { return verifyExtensionsField(p) },
+		},
+	})
+	crashIndex(r, csAll, 8)
+	crashLib(r, csAll, 2)
+	lg := map[*ssa.Function]string{}
+	crashRec(r, csAll, func(site ssa.CallInstruction, callee *ssa.Function) string {
+		if w, ok := lg[callee]; ok {
+			return w
+		}
+		lg[callee] = loaderRefGuard(p, callee)
+		return lg[callee]
+	})
+	crashNilPhase(r, csLoad, true, false, 10, "-load")
+	crashNilPhase(r, csPost, false, true, 30, "-post")
+	_ = sort.Strings
+}
+
+// c20Wrapper: every resolver rejects a nil wrapper before touching it, which is what makes
+// "wrappers are present" an invariant of loaded documents.
+func c20Wrapper(r *core.Report) {
+	p := r.Prog
+	r.RunRule("C20.wrapper", "every resolve*Ref rejects a nil wrapper (JSON null at a reference position) before dereferencing it: its first statement returns an error under `component.isEmpty()` (a nil-safe method) or `component == nil`", 10, func() {
+		info := p.Pkg("openapi3").TypesInfo
+		loaderT := p.NamedType("openapi3", "Loader")
+		for i := 0; i < loaderT.NumMethods(); i++ {
+			m := loaderT.Method(i)
+			if !strings.HasPrefix(m.Name(), "resolve") || !strings.HasSuffix(m.Name(), "Ref") || m.Name() == "resolveRef" {
+				continue
+			}
+			fd := p.Decl(m)
+			if fd.Type.Params.NumFields() < 3 {
+				continue
+			}
+			key := "wrapper-nil:" + m.Name()
+			good := false
+			if len(fd.Body.List) > 0 {
+				if ifs, ok := fd.Body.List[0].(*ast.IfStmt); ok && core.Terminates(info, ifs.Body.List) {
+					s := core.ExprStr(ifs.Cond)
+					if strings.HasSuffix(s, ".isEmpty()") || strings.Contains(s, "== nil") {
+						good = true
+					}
+				}
+			}
+			r.Check(good, key, p.Pos(fd.Pos()), "nil/empty wrapper rejected first", "the resolver dereferences its wrapper without rejecting nil first: `null` at this reference position makes loading panic")
+		}
+	})
+}
+
+// verifyReadableType: every static type flowing into readableType's parameter is a case of its switch.
+func verifyReadableType(p *core.Prog) string {
+	pk := p.Pkg("openapi3")
+	info := pk.TypesInfo
+	obj, _ := pk.Types.Scope().Lookup("readableType").(*types.Func)
+	if obj == nil {
+		return "readableType not found"
+	}
+	fd := p.Decl(obj)
+	var cases []types.Type
+	hasDefaultPanic := false
+	ast.Inspect(fd.Body, func(n ast.Node) bool {
+		ts, ok := n.(*ast.TypeSwitchStmt)
+		if !ok {
+			return true
+		}
+		for _, c := range ts.Body.List {
+			cc := c.(*ast.CaseClause)
+			if cc.List == nil {
+				hasDefaultPanic = true
+			}
+			for _, e := range cc.List {
+				if t := info.TypeOf(e); t != nil {
+					cases = append(cases, t)
+				}
+			}
+		}
+		return false
+	})
+	if len(cases) == 0 || !hasDefaultPanic {
+		return "readableType is no longer a type switch with a default case"
+	}
+	isCase := func(t types.Type) bool {
+		for _, c := range cases {
+			if types.Identical(c, t) {
+				return true
+			}
+		}
+		return false
+	}
+	fn := p.SSAFunc(obj)
+	if fn == nil {
+		return "no SSA for readableType"
+	}
+	cg := p.CallGraph()
+	type item struct {
+		fn  *ssa.Function
+		idx int
+	}
+	seen := map[item]bool{}
+	var bad []string
+	n := 0
+	var flow func(f *ssa.Function, idx int)
+	flow = func(f *ssa.Function, idx int) {
+		it := item{f, idx}
+		if seen[it] {
+			return
+		}
+		seen[it] = true
+		nd := cg.Nodes[f]
+		if nd == nil || len(nd.In) == 0 {
+			bad = append(bad, "no caller found for "+shortFn(f))
+			return
+		}
+		for _, e := range nd.In {
+			if e.Site == nil {
+				continue
+			}
+			args := e.Site.Common().Args
+			if e.Site.Common().IsInvoke() || idx >= len(args) {
+				bad = append(bad, "unexpected call shape in "+shortFn(e.Caller.Func))
+				continue
+			}
+			var visit func(v ssa.Value, depth int)
+			visit = func(v ssa.Value, depth int) {
+				switch x := v.(type) {
+				case *ssa.MakeInterface:
+					n++
+					if !isCase(x.X.Type()) {
+						bad = append(bad, fmt.Sprintf("%s passes a %s (%s)", shortFn(e.Caller.Func), x.X.Type(), p.Pos(e.Site.Pos())))
+					}
+				case *ssa.Parameter:
+					for i, prm := range x.Parent().Params {
+						if prm == x {
+							flow(x.Parent(), i)
+						}
+					}
+				case *ssa.FreeVar:
+					// captured variable of a closure: find the binding in the parent
+					par := x.Parent().Parent()
+					fvIdx := -1
+					for i, fv := range x.Parent().FreeVars {
+						if fv == x {
+							fvIdx = i
+						}
+					}
+					found := false
+					if par != nil {
+						for _, b := range par.Blocks {
+							for _, in := range b.Instrs {
+								if mc, ok := in.(*ssa.MakeClosure); ok && mc.Fn == ssa.Value(x.Parent()) && fvIdx < len(mc.Bindings) {
+									found = true
+									visit(mc.Bindings[fvIdx], depth+1)
+								}
+							}
+						}
+					}
+					if !found {
+						bad = append(bad, "unresolved captured variable in "+shortFn(x.Parent()))
+					}
+				case *ssa.Phi:
+					if depth < 6 {
+						for _, ed := range x.Edges {
+							visit(ed, depth+1)
+						}
+					}
+				case *ssa.UnOp:
+					// load of a captured/boxed variable: the stored values
+					if al, ok := x.X.(*ssa.Alloc); ok && depth < 6 {
+						for _, ref := range *al.Referrers() {
+							if st, ok := ref.(*ssa.Store); ok && st.Addr == ssa.Value(al) {
+								visit(st.Val, depth+1)
+							}
+						}
+						return
+					}
+					if fv, ok := x.X.(*ssa.FreeVar); ok && depth < 6 {
+						visit(fv, depth+1)
+						return
+					}
+					bad = append(bad, fmt.Sprintf("%s passes a value of unknown static type (%s)", shortFn(e.Caller.Func), p.Pos(e.Site.Pos())))
+				case *ssa.Alloc:
+					// address of a boxed variable bound into a closure: the values stored to it
+					for _, ref := range *x.Referrers() {
+						if st, ok := ref.(*ssa.Store); ok && st.Addr == ssa.Value(x) {
+							visit(st.Val, depth+1)
+						}
+					}
+				default:
+					bad = append(bad, fmt.Sprintf("%s passes a value of unknown static type (%s)", shortFn(e.Caller.Func), p.Pos(e.Site.Pos())))
+				}
+			}
+			visit(args[idx], 0)
+		}
+	}
+	flow(fn, 0)
+	if len(bad) > 0 {
+		sort.Strings(bad)
+		return strings.Join(uniq(bad), "; ")
+	}
+	if n < 10 {
+		return fmt.Sprintf("only %d typed flows into readableType were found (expected the ten resolvers)", n)
+	}
+	return ""
+}
+
+// verifyCollectionNames: each CollectionName() constant is the JSON name of a Components field whose
+// key type is string.
+func verifyCollectionNames(p *core.Prog) string {
+	pk := p.Pkg("openapi3")
+	info := pk.TypesInfo
+	comps := p.NamedType("openapi3", "Components")
+	st, ok := comps.Underlying().(*types.Struct)
+	if !ok {
+		return "Components is not a struct"
+	}
+	tags := map[string]types.Type{}
+	for i := 0; i < st.NumFields(); i++ {
+		if name, _ := core.JSONTag(st.Tag(i)); name != "" && name != "-" {
+			tags[name] = st.Field(i).Type()
+		}
+	}
+	// the call under the panic
+	obj, _ := pk.Types.Scope().Lookup("ReferencesComponentInRootDocument").(*types.Func)
+	if obj == nil {
+		return "ReferencesComponentInRootDocument not found"
+	}
+	okCall := false
+	ast.Inspect(p.Decl(obj).Body, func(n ast.Node) bool {
+		c, ok := n.(*ast.CallExpr)
+		if !ok || len(c.Args) != 2 {
+			return true
+		}
+		callee := core.CalleeOf(info, c)
+		if callee == nil || callee.Name() != "GetForToken" {
+			return true
+		}
+		a0, ok0 := ast.Unparen(c.Args[0]).(*ast.SelectorExpr)
+		a1, ok1 := ast.Unparen(c.Args[1]).(*ast.CallExpr)
+		if ok0 && ok1 && a0.Sel.Name == "Components" {
+			if m := core.CalleeOf(info, a1); m != nil && m.Name() == "CollectionName" {
+				okCall = true
+			}
+		}
+		return true
+	})
+	if !okCall {
+		return "the lookup is no longer jsonpointer.GetForToken(doc.Components, ref.CollectionName())"
+	}
+	n := 0
+	var bad []string
+	for _, name := range pk.Types.Scope().Names() {
+		tn, ok := pk.Types.Scope().Lookup(name).(*types.TypeName)
+		if !ok {
+			continue
+		}
+		named, ok := tn.Type().(*types.Named)
+		if !ok {
+			continue
+		}
+		for i := 0; i < named.NumMethods(); i++ {
+			m := named.Method(i)
+			if m.Name() != "CollectionName" {
+				continue
+			}
+			fd := p.Decl(m)
+			if fd == nil || len(fd.Body.List) != 1 {
+				bad = append(bad, name+".CollectionName is not a single return")
+				continue
+			}
+			ret, ok := fd.Body.List[0].(*ast.ReturnStmt)
+			if !ok || len(ret.Results) != 1 {
+				bad = append(bad, name+".CollectionName is not a single return")
+				continue
+			}
+			c, ok := core.ConstStr(info, ret.Results[0])
+			if !ok {
+				bad = append(bad, name+".CollectionName does not return a constant")
+				continue
+			}
+			n++
+			ft, ok := tags[c]
+			if !ok {
+				bad = append(bad, fmt.Sprintf("%s.CollectionName returns %q, which is not a field of Components", name, c))
+				continue
+			}
+			mt, ok := ft.Underlying().(*types.Map)
+			if !ok || !types.Identical(mt.Key(), types.Typ[types.String]) {
+				bad = append(bad, fmt.Sprintf("Components field %q is not a map with key type string", c))
+			}
+		}
+	}
+	if len(bad) > 0 {
+		return strings.Join(bad, "; ")
+	}
+	if n < 9 {
+		return fmt.Sprintf("only %d CollectionName methods found", n)
+	}
+	return ""
+}
+
+// verifyResolverCalls: every call of a RefNameResolver value is preceded, on every path, by the
+// nil / unresolved / not-external early return on the wrapper it is given.
+func verifyResolverCalls(p *core.Prog) string {
+	pk := p.Pkg("openapi3")
+	info := pk.TypesInfo
+	n := 0
+	var bad []string
+	for _, f := range pk.Syntax {
+		for _, d := range f.Decls {
+			fd, ok := d.(*ast.FuncDecl)
+			if !ok || fd.Body == nil {
+				continue
+			}
+			ast.Inspect(fd.Body, func(nd ast.Node) bool {
+				c, ok := nd.(*ast.CallExpr)
+				if !ok || len(c.Args) != 2 {
+					return true
+				}
+				id, ok := ast.Unparen(c.Fun).(*ast.Ident)
+				if !ok {
+					return true
+				}
+				v, ok := info.ObjectOf(id).(*types.Var)
+				if !ok {
+					return true
+				}
+				if nt := core.NamedOf(v.Type()); nt == nil || nt.Obj().Name() != "RefNameResolver" {
+					if sig, ok := v.Type().Underlying().(*types.Signature); !ok || sig.Params().Len() != 2 || core.NamedOf(sig.Params().At(1).Type()) == nil || core.NamedOf(sig.Params().At(1).Type()).Obj().Name() != "ComponentRef" {
+						return true
+					}
+				}
+				n++
+				arg, ok := ast.Unparen(c.Args[1]).(*ast.Ident)
+				if !ok {
+					bad = append(bad, "resolver called on a non-variable at "+p.Pos(c.Pos()))
+					return true
+				}
+				w := info.ObjectOf(arg)
+				var notNil, hasValue, external bool
+				for _, a := range core.Atoms(core.GuardsAt(info, fd.Body, c)) {
+					switch x := ast.Unparen(a.Expr).(type) {
+					case *ast.BinaryExpr:
+						if !core.IsNil(info, x.Y) {
+							continue
+						}
+						nonNil := (x.Op == token.EQL && !a.Pos) || (x.Op == token.NEQ && a.Pos)
+						if !nonNil {
+							continue
+						}
+						if xid, ok := ast.Unparen(x.X).(*ast.Ident); ok && info.ObjectOf(xid) == w {
+							notNil = true
+						}
+						if sel, ok := ast.Unparen(x.X).(*ast.SelectorExpr); ok && sel.Sel.Name == "Value" {
+							if xid, ok := ast.Unparen(sel.X).(*ast.Ident); ok && info.ObjectOf(xid) == w {
+								hasValue = true
+							}
+						}
+					case *ast.CallExpr:
+						if callee := core.CalleeOf(info, x); callee != nil && callee.Name() == "isExternalRef" && a.Pos && len(x.Args) >= 1 {
+							if sel, ok := ast.Unparen(x.Args[0]).(*ast.SelectorExpr); ok && sel.Sel.Name == "Ref" {
+								if xid, ok := ast.Unparen(sel.X).(*ast.Ident); ok && info.ObjectOf(xid) == w {
+									external = true
+								}
+							}
+						}
+					}
+				}
+				if !notNil || !hasValue || !external {
+					bad = append(bad, fmt.Sprintf("%s calls the name resolver at %s without first returning for a nil (%v), unresolved (%v) or internal (%v) reference", fd.Name.Name, p.Pos(c.Pos()), notNil, hasValue, external))
+				}
+				return true
+			})
+		}
+	}
+	// isExternalRef implies a non-empty reference
+	if obj, _ := pk.Types.Scope().Lookup("isExternalRef").(*types.Func); obj != nil {
+		fd := p.Decl(obj)
+		okE := false
+		if len(fd.Body.List) == 1 {
+			if ret, ok := fd.Body.List[0].(*ast.ReturnStmt); ok && len(ret.Results) == 1 {
+				if be, ok := ast.Unparen(ret.Results[0]).(*ast.BinaryExpr); ok && be.Op == token.LAND && core.ExprStr(be.X) == `ref != ""` {
+					okE = true
+				}
+			}
+		}
+		if !okE {
+			bad = append(bad, "isExternalRef no longer starts with `ref != \"\" &&`")
+		}
+	} else {
+		bad = append(bad, "isExternalRef not found")
+	}
+	if len(bad) > 0 {
+		return strings.Join(bad, "; ")
+	}
+	if n < 9 {
+		return fmt.Sprintf("only %d resolver calls found", n)
+	}
+	return ""
+}
+
+// verifyReflectGuardedAsserts: the two assertions of ReferencesComponentInRootDocument sit inside the
+// `if` that tests the reflected map type.
+func verifyReflectGuardedAsserts(p *core.Prog) string {
+	pk := p.Pkg("openapi3")
+	info := pk.TypesInfo
+	obj, _ := pk.Types.Scope().Lookup("ReferencesComponentInRootDocument").(*types.Func)
+	if obj == nil {
+		return "ReferencesComponentInRootDocument not found"
+	}
+	fd := p.Decl(obj)
+	n := 0
+	var bad []string
+	ast.Inspect(fd.Body, func(nd ast.Node) bool {
+		ta, ok := nd.(*ast.TypeAssertExpr)
+		if !ok || ta.Type == nil {
+			return true
+		}
+		n++
+		var keyKind, assignable bool
+		for _, a := range core.Atoms(core.GuardsAt(info, fd.Body, ta)) {
+			if !a.Pos {
+				continue
+			}
+			s := core.ExprStr(a.Expr)
+			if strings.HasSuffix(s, ".Key().Kind() == reflect.String") {
+				keyKind = true
+			}
+			if strings.Contains(s, ".Elem().AssignableTo(") {
+				assignable = true
+			}
+		}
+		if !keyKind || !assignable {
+			bad = append(bad, "assertion at "+p.Pos(ta.Pos())+" is not under the reflective key-kind/element-assignability test")
+		}
+		return true
+	})
+	if len(bad) > 0 {
+		return strings.Join(bad, "; ")
+	}
+	if n != 2 {
+		return fmt.Sprintf("%d assertions found, 2 confirmed", n)
+	}
+	return verifyCollectionNames(p)
+}
+
+// verifyExtensionsField: a first field named Extensions is a map[string]any in every struct of openapi3.
+func verifyExtensionsField(p *core.Prog) string {
+	pk := p.Pkg("openapi3")
+	want := types.NewMap(types.Typ[types.String], types.Universe.Lookup("any").Type())
+	n := 0
+	var bad []string
+	for _, name := range pk.Types.Scope().Names() {
+		tn, ok := pk.Types.Scope().Lookup(name).(*types.TypeName)
+		if !ok {
+			continue
+		}
+		st, ok := tn.Type().Underlying().(*types.Struct)
+		if !ok || st.NumFields() == 0 || st.Field(0).Name() != "Extensions" {
+			continue
+		}
+		n++
+		if !types.Identical(types.Unalias(st.Field(0).Type()), want) {
+			bad = append(bad, fmt.Sprintf("%s.Extensions is a %s", name, st.Field(0).Type()))
+		}
+	}
+	// the assertion is still guarded by the field-name test
+	obj, _ := pk.Types.Scope().Lookup("drillIntoField").(*types.Func)
+	if obj == nil {
+		return "drillIntoField not found"
+	}
+	fd := p.Decl(obj)
+	okG := false
+	ast.Inspect(fd.Body, func(nd ast.Node) bool {
+		ta, ok := nd.(*ast.TypeAssertExpr)
+		if !ok || ta.Type == nil {
+			return true
+		}
+		for _, a := range core.Atoms(core.GuardsAt(pk.TypesInfo, fd.Body, ta)) {
+			if a.Pos && strings.HasSuffix(core.ExprStr(a.Expr), `.Name == "Extensions"`) {
+				okG = true
+			}
+		}
+		return true
+	})
+	if !okG {
+		bad = append(bad, "the assertion is no longer under the `ff.Name == \"Extensions\"` test")
+	}
+	if len(bad) > 0 {
+		return strings.Join(bad, "; ")
+	}
+	if n < 20 {
+		return fmt.Sprintf("only %d structs with a leading Extensions field", n)
+	}
+	return ""
+}
+
+// loaderRefGuard: termination argument for the loader's recursion over reference wrappers. The
+// callee is a resolve*Ref method whose reference branch (`if ref := component.Ref; ref != ""`) starts
+// by returning when the wrapper is already resolved (`component.Value != nil`) or when the reference
+// is being resolved (`!loader.shouldVisitRef(ref, ...)`, a membership test on loader.visitedRefs),
+// and marks the reference (`loader.visitRef(ref)`) before it descends; pointer sharing (the only way
+// a decoded document becomes cyclic) is introduced solely by stores to a wrapper's Value inside such
+// a reference branch or inside a backtrack closure handed to shouldVisitRef. A traversal therefore
+// stops at every wrapper that is resolved or in progress, and what remains is the finite tree decoded
+// from the input.
+func loaderRefGuard(p *core.Prog, callee *ssa.Function) string {
+	obj, ok := callee.Object().(*types.Func)
+	if !ok || obj == nil || !core.InRepo(obj.Pkg()) {
+		return ""
+	}
+	sig := obj.Type().(*types.Signature)
+	if sig.Recv() == nil || core.NamedOf(sig.Recv().Type()) == nil || core.NamedOf(sig.Recv().Type()).Obj().Name() != "Loader" {
+		return ""
+	}
+	if !strings.HasPrefix(obj.Name(), "resolve") || sig.Params().Len() < 3 {
+		return ""
+	}
+	wrapper := sig.Params().At(1)
+	info := p.InfoFor(obj.Pkg())
+	fd := p.Decl(obj)
+	if fd == nil || fd.Body == nil {
+		return ""
+	}
+	isW := func(e ast.Expr) bool {
+		id, ok := ast.Unparen(e).(*ast.Ident)
+		return ok && info.ObjectOf(id) == wrapper
+	}
+	// (a) the reference branch and its two early returns followed by visitRef
+	var refBlock *ast.IfStmt
+	for _, st := range fd.Body.List {
+		ifs, ok := st.(*ast.IfStmt)
+		if !ok || ifs.Init == nil {
+			continue
+		}
+		as, ok := ifs.Init.(*ast.AssignStmt)
+		if !ok || len(as.Rhs) != 1 {
+			continue
+		}
+		sel, ok := ast.Unparen(as.Rhs[0]).(*ast.SelectorExpr)
+		if !ok || sel.Sel.Name != "Ref" || !isW(sel.X) {
+			continue
+		}
+		if be, ok := ast.Unparen(ifs.Cond).(*ast.BinaryExpr); ok && be.Op == token.NEQ {
+			if s, ok := strConst(info, be.Y); ok && s == "" {
+				refBlock = ifs
+			}
+		}
+	}
+	if refBlock == nil {
+		return ""
+	}
+	stage := 0 // 0: want Value != nil return; 1: want !shouldVisitRef return; 2: want visitRef; 3: done
+	for _, st := range refBlock.Body.List {
+		switch stage {
+		case 0, 1:
+			ifs, ok := st.(*ast.IfStmt)
+			if !ok || !core.Terminates(info, ifs.Body.List) {
+				return ""
+			}
+			if stage == 0 {
+				be, ok := ast.Unparen(ifs.Cond).(*ast.BinaryExpr)
+				if !ok || be.Op != token.NEQ || !core.IsNil(info, be.Y) {
+					return ""
+				}
+				sel, ok := ast.Unparen(be.X).(*ast.SelectorExpr)
+				if !ok || sel.Sel.Name != "Value" || !isW(sel.X) {
+					return ""
+				}
+				stage = 1
+				continue
+			}
+			un, ok := ast.Unparen(ifs.Cond).(*ast.UnaryExpr)
+			if !ok || un.Op != token.NOT {
+				return ""
+			}
+			c, ok := ast.Unparen(un.X).(*ast.CallExpr)
+			if !ok {
+				return ""
+			}
+			m := core.CalleeOf(info, c)
+			if m == nil || m.Name() != "shouldVisitRef" || !visitedSetTest(p, m) {
+				return ""
+			}
+			stage = 2
+		case 2:
+			es, ok := st.(*ast.ExprStmt)
+			if !ok {
+				return ""
+			}
+			c, ok := es.X.(*ast.CallExpr)
+			if !ok {
+				return ""
+			}
+			if m := core.CalleeOf(info, c); m == nil || m.Name() != "visitRef" {
+				return ""
+			}
+			stage = 3
+		}
+		if stage == 3 {
+			break
+		}
+	}
+	if stage != 3 {
+		return ""
+	}
+	// (c) stores to a wrapper's Value in the loader happen only in reference branches / backtrack closures
+	if bad := valueStoresOutsideRefBranch(p); bad != "" {
+		return ""
+	}
+	return "loader recursion: the callee stops at a wrapper that is resolved (Value != nil) or in progress (shouldVisitRef / visitedRefs) before descending, and only reference branches and backtrack closures store a wrapper's Value, so sharing cannot make the traversal of the decoded tree cyclic"
+}
+
+// visitedSetTest: m returns false after finding its argument in a map field of the receiver.
+func visitedSetTest(p *core.Prog, m *types.Func) bool {
+	fd := p.Decl(m)
+	if fd == nil || fd.Body == nil || len(fd.Body.List) < 2 {
+		return false
+	}
+	info := p.InfoFor(m.Pkg())
+	ifs, ok := fd.Body.List[0].(*ast.IfStmt)
+	if !ok || ifs.Init == nil {
+		return false
+	}
+	as, ok := ifs.Init.(*ast.AssignStmt)
+	if !ok || len(as.Lhs) != 2 || len(as.Rhs) != 1 {
+		return false
+	}
+	ix, ok := ast.Unparen(as.Rhs[0]).(*ast.IndexExpr)
+	if !ok {
+		return false
+	}
+	if _, isMap := info.TypeOf(ix.X).Underlying().(*types.Map); !isMap {
+		return false
+	}
+	okID, ok := as.Lhs[1].(*ast.Ident)
+	if !ok {
+		return false
+	}
+	cid, ok := ast.Unparen(ifs.Cond).(*ast.Ident)
+	if !ok || info.ObjectOf(cid) != info.ObjectOf(okID) {
+		return false
+	}
+	ret, ok := ifs.Body.List[len(ifs.Body.List)-1].(*ast.ReturnStmt)
+	if !ok || len(ret.Results) != 1 || core.ExprStr(ret.Results[0]) != "false" {
+		return false
+	}
+	return true
+}
+
+// valueStoresOutsideRefBranch lists assignments `w.Value = ...` (w a reference wrapper) in Loader
+// methods that are neither inside an `if ref := w.Ref; ref != ""` block nor inside a function literal
+// passed to shouldVisitRef.
+func valueStoresOutsideRefBranch(p *core.Prog) string {
+	pk := p.Pkg("openapi3")
+	info := pk.TypesInfo
+	var bad []string
+	n := 0
+	for _, f := range pk.Syntax {
+		for _, d := range f.Decls {
+			fd, ok := d.(*ast.FuncDecl)
+			if !ok || fd.Body == nil || fd.Recv == nil {
+				continue
+			}
+			if rt := core.NamedOf(info.TypeOf(fd.Recv.List[0].Type)); rt == nil || rt.Obj().Name() != "Loader" {
+				continue
+			}
+			ast.Inspect(fd.Body, func(nd ast.Node) bool {
+				as, ok := nd.(*ast.AssignStmt)
+				if !ok {
+					return true
+				}
+				for _, l := range as.Lhs {
+					sel, ok := ast.Unparen(l).(*ast.SelectorExpr)
+					if !ok || sel.Sel.Name != "Value" {
+						continue
+					}
+					wn := core.NamedOf(info.TypeOf(sel.X))
+					if wn == nil {
+						continue
+					}
+					if _, isW := core.IsRefWrapper(wn); !isW {
+						continue
+					}
+					n++
+					okStore := false
+					path := core.PathTo(fd.Body, as)
+					for i, anc := range path {
+						switch x := anc.(type) {
+						case *ast.IfStmt:
+							if be, ok := ast.Unparen(x.Cond).(*ast.BinaryExpr); ok && be.Op == token.NEQ {
+								if s, ok := strConst(info, be.Y); ok && s == "" && i+1 < len(path) && path[i+1] == ast.Node(x.Body) {
+									okStore = true
+								}
+							}
+						case *ast.CallExpr:
+							if m := core.CalleeOf(info, x); m != nil && m.Name() == "shouldVisitRef" {
+								okStore = true
+							}
+						}
+					}
+					if !okStore {
+						bad = append(bad, p.Pos(as.Pos()))
+					}
+				}
+				return true
+			})
+		}
+	}
+	if n < 20 {
+		return fmt.Sprintf("only %d stores found", n)
+	}
+	return strings.Join(bad, ", ")
+}
+
+// c20Inv: the post-load phase relies on "a wrapper whose resolver rejects empty wrappers has a
+// reference or a value". Code that runs on a loaded document must keep that true: it may clear a
+// wrapper's Ref only where the same wrapper's Value is known to be non-nil, and never stores nil to Value.
+func c20Inv(r *core.Report) {
+	p := r.Prog
+	r.RunRule("C20.inv", "wrappers stay non-empty after loading: outside the decoders, every assignment of the empty string to a reference wrapper's Ref is guarded by a non-nil test of the same wrapper's Value, every other value stored to Ref is a non-empty constant or a concatenation with one, and nil is never stored to a wrapper's Value (the nil-ness analysis of the post-load phase uses this invariant for `if x.Ref != \"\" {...}; x.Value.f`)", 9, func() {
+		pk := p.Pkg("openapi3")
+		info := pk.TypesInfo
+		perFn := map[string]int{}
+		for _, f := range pk.Syntax {
+			for _, d := range f.Decls {
+				fd, ok := d.(*ast.FuncDecl)
+				if !ok || fd.Body == nil || strings.HasPrefix(fd.Name.Name, "Unmarshal") {
+					continue
+				}
+				ast.Inspect(fd.Body, func(nd ast.Node) bool {
+					as, ok := nd.(*ast.AssignStmt)
+					if !ok || len(as.Lhs) != len(as.Rhs) {
+						return true
+					}
+					for i, l := range as.Lhs {
+						sel, ok := ast.Unparen(l).(*ast.SelectorExpr)
+						if !ok || (sel.Sel.Name != "Ref" && sel.Sel.Name != "Value") {
+							continue
+						}
+						wn := core.NamedOf(info.TypeOf(sel.X))
+						if wn == nil {
+							continue
+						}
+						if _, isW := core.IsRefWrapper(wn); !isW {
+							continue
+						}
+						perFn[fd.Name.Name+"/"+sel.Sel.Name]++
+						key := fmt.Sprintf("inv:%s/%s.%s#%d", fd.Name.Name, wn.Obj().Name(), sel.Sel.Name, perFn[fd.Name.Name+"/"+sel.Sel.Name])
+						pos := p.Pos(as.Pos())
+						rhs := ast.Unparen(as.Rhs[i])
+						if sel.Sel.Name == "Value" {
+							if core.IsNil(info, rhs) {
+								r.Bad(key, pos, "nil stored to a wrapper's Value: the wrapper may become empty")
+							} else {
+								r.Trivial(key, pos, "not a nil store")
+							}
+							continue
+						}
+						if sv, ok := strConst(info, rhs); ok {
+							if sv != "" {
+								r.OK(key, pos, "non-empty constant reference")
+								continue
+							}
+							guarded := false
+							for _, a := range core.Atoms(core.GuardsAt(info, fd.Body, as)) {
+								be, ok := ast.Unparen(a.Expr).(*ast.BinaryExpr)
+								if !ok || !core.IsNil(info, be.Y) {
+									continue
+								}
+								if !((be.Op == token.NEQ && a.Pos) || (be.Op == token.EQL && !a.Pos)) {
+									continue
+								}
+								if vs, ok := ast.Unparen(be.X).(*ast.SelectorExpr); ok && vs.Sel.Name == "Value" && core.ExprStr(vs.X) == core.ExprStr(sel.X) {
+									guarded = true
+								}
+							}
+							r.Check(guarded, key, pos, "reference cleared only where the wrapper has a value", "the wrapper's Ref is cleared without knowing that its Value is non-nil: an unresolved reference becomes an empty wrapper, which MarshalJSON dereferences")
+							continue
+						}
+						if be, ok := rhs.(*ast.BinaryExpr); ok && be.Op == token.ADD {
+							if sv, ok := strConst(info, be.X); ok && sv != "" {
+								r.OK(key, pos, "concatenation with a non-empty constant prefix")
+								continue
+							}
+						}
+						if id, ok := rhs.(*ast.Ident); ok {
+							// `ref` bound by `if ref := x.Ref; ref != ""`
+							nonEmpty := false
+							for _, a := range core.Atoms(core.GuardsAt(info, fd.Body, as)) {
+								if be, ok := ast.Unparen(a.Expr).(*ast.BinaryExpr); ok && be.Op == token.NEQ && a.Pos {
+									if xid, ok := ast.Unparen(be.X).(*ast.Ident); ok && info.ObjectOf(xid) == info.ObjectOf(id) {
+										if sv, ok := strConst(info, be.Y); ok && sv == "" {
+											nonEmpty = true
+										}
+									}
+								}
+							}
+							if nonEmpty {
+								r.OK(key, pos, "a reference string tested non-empty")
+								continue
+							}
+						}
+						r.Unknown(key, pos, "cannot tell whether the stored reference is empty")
+					}
+					return true
+				})
+			}
+		}
+	})
 }
